@@ -507,6 +507,23 @@ impl Compiler {
             .map(|ctx| ctx.continue_scope_depth)
             .unwrap_or(0) as u16;
 
+        // `continue outer` leaves the for-of loops nested inside the target: their iterators
+        // are closed, as a break out of them would
+        // (a label's context stands in front of the loop it names)
+        let mut target_loop_idx = loop_idx;
+        while self
+            .loop_stack
+            .get(target_loop_idx)
+            .is_some_and(|ctx| ctx.kind == ContextKind::Label)
+        {
+            target_loop_idx += 1;
+        }
+        for i in (target_loop_idx + 1..self.loop_stack.len()).rev() {
+            if let Some(iter_reg) = self.loop_stack.get(i).and_then(|ctx| ctx.iterator_reg) {
+                self.builder.emit(Op::IteratorClose { iterator: iter_reg });
+            }
+        }
+
         if let Some(ctx) = self.loop_stack.get_mut(loop_idx) {
             if let Some(target) = ctx.continue_target {
                 // Target is known, emit Continue with known target
